@@ -691,8 +691,9 @@ def c12(run):
 
 @check("C32")
 def c32(run):
-    run.rp_leg("rp_devices", "MC_Devices", "MC_Devices4.cfg" if run.tier == "thorough" else "MC_Devices.cfg", "devices",
-               "MC_Devices_ops.ndjson", verdict=CONF + ["regvals"], workers=16)
+    run.rp_leg("rp_devices", "MC_Devices", "MC_Devices.cfg", "devices", "MC_Devices_ops.ndjson", verdict=CONF + ["regvals"], workers=16)
+    if run.tier == "thorough":      # depth 4 over a 12-call alphabet (20 736 histories)
+        run.rp_leg("rp_devices4", "MC_Devices", "MC_Devices4.cfg", "devices", "MC_Devices_ops4.ndjson", verdict=CONF + ["regvals"], workers=16)
     run.trace_leg("devices", ["machine", "kind=devices"], verdict=CONF + ["regvals"])
     return run.finish(
         rule="random histories over add_device (valid, occupied, non-I/O and repeated ports), remove_device (incl. fixed "
